@@ -116,8 +116,8 @@ func forgedSweeps(c *vh.Ctx) {
 					c.Fail("c25-panic/"+key+"/"+kind, "Read panicked on a damaged record instead of returning an error", detail, fmt.Sprint(pv), "an error")
 				} else if !bytes.HasPrefix(payload, got) {
 					c.Fail("c25-tamper/"+key+"/"+kind, "the receiver returned plaintext that was never sent", detail, len(got), "only a prefix of the sent bytes")
-				} else if len(got) == len(payload) && len(recs) == 1 {
-					c.Fail("c25-tamper/"+key+"/"+kind, "a damaged record was delivered in full", detail, len(got), "an error before the data")
+				} else if len(got) > 0 {
+					c.Fail("c25-tamper/"+key+"/"+kind, "data was delivered although the first record of the stream was damaged", detail, len(got), "an error before any data")
 				} else if err == nil {
 					c.Fail("c25-tamper/"+key+"/"+kind, "no error after a damaged record", detail, "nil", "an error")
 				}
